@@ -460,11 +460,13 @@ func (z *ioDecReader) skip(n uint) {
 	}
 
 	var r, n2 uint
+	if z.recording {
+		r = uint(len(out)) // bytes recorded so far
+	}
 	nn := int(n)
 	for nn > 0 {
 		n2 = uint(nn)
 		if z.recording {
-			r = uint(len(out))
 			n2 = r + decInferLen(int(nn), z.maxInitLen, 1)
 			if cap(out) < int(n2) {
 				out2 := z.blist.putGet(out, int(n2))[:n2] // make([]byte, len2+len3)
@@ -479,13 +481,16 @@ func (z *ioDecReader) skip(n uint) {
 			z.l = out[r+uint(n3)-1]
 			z.n += uint(n3)
 			nn -= n3
+			if z.recording {
+				r += uint(n3) // a short read must not leave a gap in the recording
+			}
 		}
 		if nn > 0 { // an error that comes with the last bytes requested is not ours to report
 			halt.onerror(err)
 		}
 	}
 	if z.recording {
-		z.buf = out
+		z.buf = out[:r]
 	} else if fromBlist {
 		z.blist.put(out)
 	}
